@@ -185,13 +185,39 @@ PROBES = [
 ]
 
 
-def infer(sql_expr, grouped=False):
+NUM_ORDER = ["ti", "sm", "i", "bi", "de", "d"]
+
+
+def make_source(rng):
+    """-> (kind, with_clause, from_clause): the same column names as table t, reached through a derived table, a CTE or a
+    set operation whose right branch supplies other (often wider) numeric columns under the left branch's names"""
+    cols = list(COLS)
+    kind = rng.choice(["derived", "derived-star", "cte", "setop:UNION ALL", "setop:UNION", "setop:EXCEPT", "setop:INTERSECT",
+                       "setop:UNION ALL", "setop:EXCEPT", "setop:INTERSECT"])
+    if kind == "derived":
+        return kind, "", f"(SELECT {', '.join(cols)} FROM t) AS t"
+    if kind == "derived-star":
+        return kind, "", "(SELECT * FROM t) AS t"
+    if kind == "cte":
+        return kind, f"WITH c AS (SELECT {', '.join(cols)} FROM t) ", "c AS t"
+    op = kind.split(":")[1]
+    perm = NUM_ORDER[:]
+    rng.shuffle(perm)
+    right = [perm[NUM_ORDER.index(c)] if c in NUM_ORDER else c for c in cols]
+    body = f"SELECT {', '.join(cols)} FROM t {op} SELECT {', '.join(right)} FROM t"
+    if rng.random() < 0.3:
+        return kind + ":cte", f"WITH c AS ({body}) ", "c AS t"
+    return kind, "", f"({body}) AS t"
+
+
+def infer(sql_expr, grouped=False, source=None):
     import sqlglot
     from sqlglot.optimizer.annotate_types import annotate_types
     from sqlglot.optimizer.qualify import qualify
 
     schema = {"t": COLS}
-    tree = sqlglot.parse_one(f"SELECT {sql_expr} AS r FROM t", read="duckdb")
+    w, f = (source[1], source[2]) if source else ("", "t")
+    tree = sqlglot.parse_one(f"{w}SELECT {sql_expr} AS r FROM {f}", read="duckdb")
     q = qualify(tree, schema=schema, dialect="duckdb")
     before = q.sql(dialect="duckdb")
     a = annotate_types(q, schema=schema, dialect="duckdb")
@@ -203,7 +229,7 @@ def infer(sql_expr, grouped=False):
 _CON = None
 
 
-def engine_type(sql_expr):
+def engine_type(sql_expr, source=None):
     global _CON
     if _CON is None:
         import duckdb
@@ -212,6 +238,9 @@ def engine_type(sql_expr):
         _CON.execute("CREATE TABLE t (" + ", ".join(f"{c} {ty}" for c, ty in COLS.items()) + ")")
         _CON.execute("INSERT INTO t VALUES (TRUE, 1, 2, 3, 4, 1.5, 2.25, 'xy', DATE '2020-02-03', TIMESTAMP '2020-02-03 04:05:06')")
     try:
+        if source:
+            # DESCRIBE: the source may be empty (EXCEPT / INTERSECT), the column type is still defined
+            return _CON.execute(f"DESCRIBE {source[1]}SELECT {sql_expr} AS r FROM {source[2]}").fetchall()[0][1]
         return _CON.execute(f"SELECT typeof(r) FROM (SELECT {sql_expr} AS r FROM t)").fetchall()[0][0]
     except Exception as e:
         return None
@@ -246,6 +275,41 @@ def check(ctx, expr, skel, sigbase=None):
     if lc != ec and not (lc == "null" or ec == "null"):
         top = skel[0] if skel else "?"
         ctx.violation(sigbase or f"class-differs:{top}:inferred={lc}:engine={ec}", {"expr": expr, "inferred": lt, "engine": et, "skeleton": skel[:8]}, case)
+        return False
+    return True
+
+
+def check_source(ctx, expr, skel, source):
+    """the same expression over the same column names reached through a derived table / CTE / set operation. Reported only
+    when the expression is fine over the base table (so that one mechanism is not reported under two names)."""
+    from sqlglot.errors import SqlglotError
+
+    et = engine_type(expr, source)
+    if et is None:
+        ctx.count("engine_rejected")
+        return
+    case = {"expr": expr, "source": list(source)}
+    try:
+        lt, before, after = infer(expr, source=source)
+    except SqlglotError:
+        ctx.count("sqlglot_error")
+        return
+    except Exception as e:
+        ctx.violation(f"internal-exception:{type(e).__name__}", {"expr": expr, "source": source[2], "error": repr(e)[:200]}, case)
+        return
+    ctx.count("evaluations")
+    ctx.count("source_variants_compared")
+    kind = source[0].split(":")[0] + (":" + source[0].split(":")[1] if source[0].startswith("setop") else "")
+    if before != after:
+        ctx.violation("annotation-changed-the-sql", {"expr": expr, "before": before, "after": after}, case)
+    lc, ec = LIB_CLASS.get(lt, "other:" + lt), engine_class(et)
+    if lc == "unknown":
+        ctx.count("inferred_unknown(no claim)")
+        return
+    ctx.nt("|".join([kind] + skel))
+    if lc != ec and not (lc == "null" or ec == "null"):
+        ctx.violation(f"class-differs-through-source:{kind}:inferred={lc}:engine={ec}",
+                      {"expr": expr, "with": source[1], "from": source[2], "inferred": lt, "engine": et, "skeleton": skel[:8]}, case)
 
 
 def worker(ctx):
@@ -265,7 +329,16 @@ def worker(ctx):
             e = temporal(rng, skel)
         else:
             e, _ = aggregate(rng, skel)
-        check(ctx, e, skel)
+        ok = check(ctx, e, skel)
+        if ok and i % 3 == 0 and r < 0.87:
+            src = make_source(rng)
+            if src[0].startswith("setop"):
+                # the columns change type here (the branches are unified), so "fine over the base table" says nothing about
+                # an operator applied to them: only the columns themselves are compared
+                for c in COLS:
+                    check_source(ctx, c, [COLS[c].split("(")[0]], src)
+            else:
+                check_source(ctx, e, skel, src)
         if i % 997 == 0:
             ctx.sample({"expr": e, "engine_typeof": engine_type(e)})
     if ctx.shard == 0:
